@@ -598,7 +598,7 @@ def strat_reparse(draw, tier="quick"):
     qs = qual_strategy(allow_comma=False, allow_dquote=False, reserved=False, max_keys=2)
     for i in range(ng):
         coding = draw(st.sampled_from([True, True, False]))
-        g = draw(S.gene_spec(max_tx=3, max_exons=3, max_len=8, region=[i * draw(st.sampled_from([0, 6, 30])), 0], frameshift_prob=10))
+        g = draw(S.gene_spec(max_tx=3, max_exons=3, max_len=8, region=[i * draw(st.sampled_from([0, 6, 30])), 0], frameshift_prob=10, cds_overlap_prob=8))
         g["gene_id"] = "gene%d" % i
         g["gene_symbol"] = "SYM%d%s" % (i, draw(st.text(alphabet="abc ;=%", max_size=3)))
         g["gene_type"] = draw(st.sampled_from(["protein_coding", "ncRNA", "lncRNA", "pseudogene"]))
